@@ -31,24 +31,24 @@ var errSymReset = errors.New("connection reset by peer")
 var errSymWrite = errors.New("write: broken pipe")
 
 type symConn struct {
-	name       string
-	chunks     [][]byte // inbound stream as a sequence of chunks (a Read never spans two chunks: a legal short read)
-	ci, off    int      // read cursor: chunk index, offset inside it
-	pos        int      // total bytes consumed
-	avail      int      // chunks [0,avail) have arrived
-	final      bool     // no more data will be delivered
-	endMode    int
-	shortReads int
-	reads      int
-	more       chan struct{}
-	closed     bool
-	closedCh   chan struct{}
-	closes     int
-	writes     [][]byte
-	failWrites bool
+	name            string
+	chunks          [][]byte // inbound stream as a sequence of chunks (a Read never spans two chunks: a legal short read)
+	ci, off         int      // read cursor: chunk index, offset inside it
+	pos             int      // total bytes consumed
+	avail           int      // chunks [0,avail) have arrived
+	final           bool     // no more data will be delivered
+	endMode         int
+	shortReads      int
+	reads           int
+	more            chan struct{}
+	closed          bool
+	closedCh        chan struct{}
+	closes          int
+	writes          [][]byte
+	failWrites      bool
 	writeAfterClose int
-	local      netip.Addr
-	remote     netip.Addr
+	local           netip.Addr
+	remote          netip.Addr
 }
 
 // newSymConn: the whole stream `in` has arrived (one chunk); see addFrame for framed streams.
@@ -219,29 +219,29 @@ type pevent struct {
 }
 
 type monPlugin struct {
-	events      []pevent
-	active      int // callbacks currently executing (overlap detection)
-	overlap     bool
-	estab       bool // between OnEstablished return and OnClose entry
-	badOrder    bool
-	nEstab      int
-	nClose      int
-	nOpen       int
-	nGetCaps    int
-	caps        []Capability
-	openNotif   *Notification // returned from OnOpenMessage
-	nilHandler  bool
-	handlerNotifAt int        // handler call index that returns handlerNotif (-1: never)
-	handlerNotif   *Notification
-	updates     [][]byte
-	updateGids  []int
-	writer      UpdateMessageWriter
+	events             []pevent
+	active             int // callbacks currently executing (overlap detection)
+	overlap            bool
+	estab              bool // between OnEstablished return and OnClose entry
+	badOrder           bool
+	nEstab             int
+	nClose             int
+	nOpen              int
+	nGetCaps           int
+	caps               []Capability
+	openNotif          *Notification // returned from OnOpenMessage
+	nilHandler         bool
+	handlerNotifAt     int // handler call index that returns handlerNotif (-1: never)
+	handlerNotif       *Notification
+	updates            [][]byte
+	updateGids         []int
+	writer             UpdateMessageWriter
 	writeInEstablished []byte // WriteUpdate(body) from inside OnEstablished when non-nil
 	writeInHandler     []byte
-	writeErrs   []error
-	gotRID      netip.Addr
-	gotCaps     []Capability
-	yieldInCallbacks bool
+	writeErrs          []error
+	gotRID             netip.Addr
+	gotCaps            []Capability
+	yieldInCallbacks   bool
 }
 
 func newMonPlugin() *monPlugin { return &monPlugin{handlerNotifAt: -1} }
